@@ -8,68 +8,9 @@
    answer   : certified | rejected | error:<msg>          (+ " size=<n>")
 -/
 import Lean.Data.Json
-import J2O.Model.C02
+import J2O.Model.TermJson
 open Lean (Json)
-open J2O J2O.C02
-
-def parseDim (j : Json) : Dim :=
-  match j with
-  | .num n => if n.exponent == 0 && n.mantissa ≥ 0 then .known n.mantissa.toNat else .unk
-  | .str s => .sym s
-  | _ => .unk
-
-def parseAnn (j : Json) : Ann :=
-  let dt := match j.getObjVal? "dt" with
-    | .ok (.num n) => if n.exponent == 0 && n.mantissa ≥ 0 then some n.mantissa.toNat else none
-    | _ => none
-  let sh := match j.getObjVal? "sh" with
-    | .ok (.arr a) => some (a.toList.map parseDim)
-    | _ => none
-  ⟨dt, sh⟩
-
-def natList? (j : Json) : Option (List Nat) :=
-  match j with
-  | .arr a => a.toList.mapM (fun x => match x with
-      | .num n => if n.exponent == 0 && n.mantissa ≥ 0 then some n.mantissa.toNat else none
-      | _ => none)
-  | _ => none
-
-partial def parseTerm (j : Json) : Except String Term := do
-  match j.getObjVal? "l" with
-  | .ok idj =>
-    let id ← idj.getNat?
-    let sc := match j.getObjVal? "sc" with | .ok (.bool b) => b | _ => false
-    return .leaf id (parseAnn j) sc
-  | .error _ =>
-  match j.getObjVal? "b" with
-  | .ok (.bool b) => return .boolc b
-  | _ =>
-    let op ← (← j.getObjVal? "op").getStr?
-    let dom := match j.getObjVal? "dom" with | .ok (.str s) => s | _ => ""
-    let attrs := match j.getObjVal? "attrs" with | .ok (.str s) => s | _ => ""
-    let idx := match j.getObjVal? "i" with | .ok v => (v.getNat?.toOption.getD 0) | _ => 0
-    let argsJ ← (← j.getObjVal? "a").getArr?
-    let args ← argsJ.toList.mapM parseTerm
-    let ann := parseAnn j
-    let std := dom == ""
-    let head : Head :=
-      if std && op == "Transpose" then
-        match (j.getObjVal? "perm").toOption.bind natList? with
-        | some p => .transpose p
-        | none => .opq op attrs idx
-      else if std && op == "Cast" then
-        match (j.getObjVal? "to").toOption.bind (fun v => v.getNat?.toOption) with
-        | some t => .cast t
-        | none => .opq op attrs idx
-      else if std && op.startsWith "Reduce" && args.length == 1 &&
-          ((j.getObjVal? "axes").toOption.bind natList?).isSome then
-        .reduce (op ++ "|" ++ attrs) (((j.getObjVal? "axes").toOption.bind natList?).getD [])
-      else if std && op == "Reshape" && args.length == 2 && attrs == "" then .reshape
-      else if std && op == "CastLike" && args.length == 2 then .castLike
-      else if std && op == "Identity" && args.length == 1 then .identity
-      else if std && pointwiseOps.contains op && idx == 0 then .pw op attrs
-      else .opq (dom ++ "::" ++ op) attrs idx
-    return .app head ann (Term.ofList args)
+open J2O J2O.C02 J2O.TermJson
 
 def handle (line : String) : String :=
   match Json.parse line with
